@@ -126,6 +126,12 @@ def run(ctx):
     ctx.extra['unary_labels_seen'] = labels
     ctx.sample({'pair': [canonical(pairs[0][0]), canonical(pairs[0][1])]})
     ctx.sample({'unary_input': canonical(lhs[0])})
+    # the same pairs on categories that live for one call only
+    rec = [(c[3][0], c[3][1], c[2]) for c in cases if c[0] == 'ja_bin' and isinstance(c[3], list) and len(c[3]) == 2
+           and all(isinstance(t, str) for t in c[3][:2]) and c[2].startswith('ok')]
+    fired = [r for r in rec if r[2] != 'ok 0']
+    sample = rng.sample(fired, min(len(fired), 500)) + rng.sample(rec, min(len(rec), 300))
+    ctx.extra['short_lived_calls'] = G.short_lived_suite(ctx, ja.apply_binary_rules, sample, ctx.budget(4, 12))
     ctx.extra['skipped_unsupported'] = common.compare_with_model(ctx, setup + cases)
     common.conclude(ctx)
 
